@@ -84,6 +84,17 @@ CHECKS.update({
     ),
 })
 
+CHECKS.update({
+    "C02": dict(
+        engine="E4 z3 constraint systems",
+        cat="other",
+        text="z3 is the arbiter of 'every assignment of positive integers': for each member (expression list incl. flatten/concat/ellipsis/numbers, shapes incl. unknown ones, keyword sizes; consistent, single-edit corrupted and >= 2**31 variants) one flat system per ellipsis-count vector is built from the structured description, independently of einx/sympy. einx's solve_axes/solve_shapes/matches outcome is judged: reported values must hold in EVERY model (uniqueness queries unsat), infeasible or ambiguous members must be rejected, members determined by reference unit propagation must be accepted, integers are unbounded (exactness).",
+        note="Bounded: ellipsis repetitions <= 4, <= 3 expressions, nested ellipses outside. z3 unknown -> inconclusive. Members are generated by construction + single-edit corruption (z3 adjudicates their class) rather than synthesised by the solver.",
+        tech="SMT (nonlinear integer arithmetic) adjudication of the real solver's outcomes: feasibility + uniqueness queries per count vector",
+        ref="DESIGN.md §3 C02",
+    ),
+})
+
 NOT_APPLICABLE = {
     "C17": "quantifies over all axis lengths and the syntactic form of generated text; stages 2-4 cannot run with symbolic sizes under any installed engine (sympy, numpy int32 casts), see DESIGN.md §3 C17",
 }
